@@ -58,7 +58,9 @@ def main():
     json.dump(dict(property=args.pid, what=why, has_failing_input=False), open(path, "w"))
     ev = dict(property_id=args.pid, tier=args.tier, seed=args.seed, level="proof",
               coverage=dict(evaluations=0, distinct_nontrivial=0, explanation=why), wall_s=time.time() - t0, violations=1)
-    json.dump(ev, open(os.path.join(VERIF, "evidence", args.pid + ".json"), "w"))
+    d = os.environ.get("VERIF_EVIDENCE_DIR") or os.path.join(VERIF, "evidence")
+    os.makedirs(d, exist_ok=True)
+    json.dump(ev, open(os.path.join(d, args.pid + (".replay.json" if args.replay else ".json")), "w"))
     print("VIOLATION property=%s replay=%s no-failing-input-found" % (args.pid, path))
     sys.exit(1)
 
